@@ -2,36 +2,41 @@ TECHNIQUE = ('bounded symbolic execution of LLVM IR lowered to C: CBMC/SAT (cadi
              '(symbolic grow_by sequence + symbolic whole-container operation, probe indices for the forall claims)')
 ASSUMPTIONS = [
     'T is trivially copyable (static_assert of the copy constructor); minBuffSize >= 1',
+    'detail::alignedMalloc/alignedFree (property C44) are replaced by their contract: plain malloc/free (their pointer<->integer arithmetic multiplies solver time by ~10)',
+    'size-determining inputs (initialSize, grow_by deltas) are enumerated as literal scenarios inside the harness and selected by a symbolic input; payload and probe indices are fully symbolic',
     'a moved-from arena (move construction / move assignment) is only required to be destructible',
     'malloc/new return fresh blocks with arbitrary contents and never fail',
     'sequential part only: one thread; the 2-grower concurrent part is a separate (later) instance',
 ]
-OUTSIDE = ('more grow_by calls / larger deltas / larger minBuffSize than the stated bounds; element types other than '
+OUTSIDE = ('more than 3 grow_by calls before the operation / deltas above 2 / minBuffSize other than 1, 2 (second arena 2, 4); element types other than '
            'int32_t and an 8-byte trivially copyable struct; concurrent growers (handled by the concurrent instance); '
            'allocation failure')
 
 
-def inst(name, opmask, grows, maxd, maxbuf, unwind, extra=None, **kw):
-    d = {'VF_OPMASK': opmask, 'VF_GROWS': grows, 'VF_MAXD': maxd, 'VF_MAXBUF': maxbuf}
-    d.update(extra or {})
-    r = {'name': name, 'src': 'arena.cpp', 'engine': 'cbmc', 'defs': d, 'unwind': unwind,
-         'leak_check': True, 'timeout': 300}
-    r.update(kw)
-    return r
+OPN = ['copy_construct', 'copy_assign', 'move_assign', 'swap', 'move_construct', 'self_copy_assign']
+GROW_BY = {'size_t': '_ZN8dispenso21ConcurrentObjectArenaI%smLm%dEE7grow_byEm',
+           'uint32_t': '_ZN8dispenso21ConcurrentObjectArenaI%sjLm%dEE7grow_byEj'}
 
 
-OPS = {0x1c: 'move-assign / swap / move-construct', 0x23: 'copy-construct / copy-assign / self-copy-assign',
-       0x3f: 'copy-construct / copy-assign / move-assign / swap / move-construct / self-copy-assign'}
+def inst(op, minbuf, nsc, tiers, db=3, index='size_t', align=64, elem=0, suffix=''):
+    d = {'VF_OP': op, 'VF_MINBUF': minbuf, 'VF_NSC': nsc, 'VF_DB': db}
+    if index != 'size_t' or align != 64 or elem:
+        d.update({'VF_INDEX': index, 'VF_ALIGN': align, 'VF_ELEM': elem})
+    g = GROW_BY[index] % ('4Elem' if elem else 'i', align)
+    t = 'Elem{int32_t v=0x5a5a; int32_t pad=-1}' if elem else 'int32_t'
+    return {
+        'name': '%s_b%d%s' % (OPN[op], minbuf, suffix), 'src': 'arena.cpp', 'engine': 'cbmc', 'defs': d,
+        'unwind': 5 * db + 3, 'unwindset': {g + '.1': db, g + '.2': 2, g + '.3': db + 1},
+        'leak_check': True, 'timeout': 1700, 'tiers': tiers,
+        'bounds': ('ConcurrentObjectArena<%s,%s,%d>, minBuffSize %d: %d scenarios chosen by a symbolic selector '
+                   '(initialSize and up to 3 grow_by deltas, each 0..%d, are the base-%d digits of the selector), then %s '
+                   'against a second arena (minBuffSize %d, 1+2 elements), then grow_by(0..%d) on the destination; '
+                   'symbolic payload seeds and probe indices; alignedMalloc/alignedFree replaced by malloc/free')
+                  % (t, index, align, minbuf, nsc, db - 1, db, OPN[op], 2 * minbuf, db - 1),
+    }
 
 
-def bounds(t, idx, al, opmask, grows, maxd, maxbuf):
-    return ('ConcurrentObjectArena<%s,%s,%d>: minBuffSize 1..%d (symbolic, incl. non powers of two), initialSize 0..%d, '
-            '%d x grow_by(0..%d), then one of {%s} against a second arena (own minBuffSize, initialSize, one grow_by), '
-            'then grow_by(0..%d) on the destination; up to %d elements / %d buffers; symbolic payload and probe indices'
-            % (t, idx, al, maxbuf, maxd, grows, maxd, OPS[opmask], maxd, maxd * (grows + 2), maxd * (grows + 2) + 1))
-
-
-INSTANCES = [
-    inst('move_swap', 0x1c, 3, 2, 4, 12, bounds=bounds('int32_t', 'size_t', 64, 0x1c, 3, 2, 4)),
-    inst('copy', 0x23, 3, 2, 4, 12, bounds=bounds('int32_t', 'size_t', 64, 0x23, 3, 2, 4)),
-]
+INSTANCES = [inst(op, 1, 4, ['quick'], db=2) for op in range(5)] + \
+    [inst(op, 1, 27, ['thorough']) for op in range(6)] + \
+    [inst(op, 2, 9, ['thorough']) for op in (0, 3)] + \
+    [inst(op, 1, 9, ['thorough'], index='uint32_t', align=16, elem=1, suffix='_u32') for op in (0, 3)]
